@@ -21,9 +21,15 @@ func (p *Pool) ExitPool(ctx sdk.Context, oracleKeeper OracleKeeper, accountedPoo
 // exitPool exits the pool given exitingCoins and exitingShares.
 // updates the pool's liquidity and totalShares.
 func (p *Pool) processExitPool(_ sdk.Context, exitingCoins sdk.Coins, exitingShares math.Int) error {
-	balances := p.GetTotalPoolLiquidity().Sub(exitingCoins...)
-	if err := p.UpdatePoolAssetBalances(balances); err != nil {
-		return err
+	// subtract per asset: sdk.Coins.Sub drops a coin that becomes zero, which would leave that asset's balance untouched
+	for _, coin := range exitingCoins {
+		_, poolAsset, err := p.GetPoolAssetAndIndex(coin.Denom)
+		if err != nil {
+			return err
+		}
+		if err := p.UpdatePoolAssetBalance(sdk.NewCoin(coin.Denom, poolAsset.Token.Amount.Sub(coin.Amount))); err != nil {
+			return err
+		}
 	}
 
 	totalShares := p.GetTotalShares().Amount
